@@ -40,6 +40,8 @@ def oracle_c07(sc, res, evs=None):
 
     pin = {}          # tag -> shepherd or None
     last = {}         # tag -> seq of the task's previous event
+    addr_tag = {}     # live descriptor address -> tag (from the body-start event)
+    last_deq = {}     # tag -> seq of the last scheduler dequeue (G event) of the task's descriptor
     spawn_seq = {}
     pend = {}
     for (seq, k, thr, a, b, c, d, e, f) in evs:
@@ -51,8 +53,18 @@ def oracle_c07(sc, res, evs=None):
         elif k == "s":
             spawn_seq[a] = seq
             last[a] = seq
+        if k == "G":
+            # a dequeue of a descriptor: for a known task this is a dispatch (the pin is only enforced THERE: a task that
+            # goes on running without passing through the scheduler - an operation that did not block, a refused or
+            # same-shepherd migrate - legitimately stays where an earlier, legitimate dispatch put it)
+            if a in addr_tag:
+                last_deq[addr_tag[a]] = seq
+        elif k == "F":
+            addr_tag.pop(a, None)
         samples = None
         if k == "B":
+            addr_tag[b] = a
+            last_deq[a] = seq          # the start itself follows a dequeue (logged before the tag is known)
             samples = (a, c, d, "start")
         elif k == "r":
             samples = (a, b, c, "resumption")
@@ -69,7 +81,8 @@ def oracle_c07(sc, res, evs=None):
                     fails.append("the main task ran on shepherd %d worker %d (%s at event %d)" % (shep, pw, what, seq))
             else:
                 h = pin.get(tag)
-                if h is not None and h < ns and shep != h and not possibly_inactive(h, lo, seq):
+                dispatched = last_deq.get(tag, -1) >= lo       # the task went through the scheduler since its previous event
+                if h is not None and h < ns and shep != h and dispatched and not possibly_inactive(h, lo, seq):
                     fails.append("tag %d is pinned to shepherd %d (enabled) but its %s at event %d is on shepherd %d" % (tag, h, what, seq, shep))
                 # disabled shepherds run nothing that was spawned after the disable returned
                 for (dseq, eseq) in dis_ret.get(shep, []):
